@@ -353,6 +353,53 @@ func isSLHPrivatePrimary(info *tinkpb.KeysetInfo) bool {
 	return primaryType(info) == "SlhDsaPrivateKey"
 }
 
+// shapedSignatureSizes: the signature lengths of the library's signature schemes (Ed25519 / P-256
+// P1363, P-384, P-521, RSA 2048..4096 and one byte more, ML-DSA-44/65/87, the twelve SLH-DSA sets,
+// composite ML-DSA with a fixed-length classical part).  A verifier that checks the length first and
+// then trusts its key only meets the rest of its code with such an input.
+var shapedSignatureSizes = []int{64, 96, 132, 256, 257, 384, 385, 512, 2420, 3309, 4627, 3373, 3693, 3821, 5011, 5139,
+	7856, 17088, 16224, 35664, 29792, 49856}
+
+// verifyShaped feeds v, for every entry of the public handle, that entry's output prefix followed by
+// well-formed garbage: bytes of every standard signature length and a minimal DER ECDSA signature.
+// Nothing is asserted about the verdicts (garbage is rejected or not - C03's business); a panic is
+// the violation.
+func (e *env) verifyShaped(v tink.Verifier, pub *keyset.Handle, msg []byte) {
+	if v == nil || pub == nil {
+		return
+	}
+	var prefixes [][]byte
+	e.guard("Handle.Entry / Key.OutputPrefix", func() {
+		for i := 0; i < pub.Len(); i++ {
+			en, err := pub.Entry(i)
+			if err != nil || en.Key() == nil {
+				continue
+			}
+			if k, ok := en.Key().(interface{ OutputPrefix() []byte }); ok {
+				prefixes = append(prefixes, k.OutputPrefix())
+			} else {
+				// fallback proto keys: both forms a key of this ID can have
+				id := en.KeyID()
+				prefixes = append(prefixes, nil, []byte{1, byte(id >> 24), byte(id >> 16), byte(id >> 8), byte(id)}, []byte{0, byte(id >> 24), byte(id >> 16), byte(id >> 8), byte(id)})
+			}
+		}
+	})
+	seen := map[string]bool{}
+	for _, p := range prefixes {
+		if seen[string(p)] {
+			continue
+		}
+		seen[string(p)] = true
+		e.guard("Verifier.Verify(prefix || well-formed garbage)", func() {
+			v.Verify(append(bytes.Clone(p), 0x30, 0x06, 0x02, 0x01, 0x01, 0x02, 0x01, 0x01), msg)
+			for _, n := range shapedSignatureSizes {
+				v.Verify(append(bytes.Clone(p), bytes.Repeat([]byte{0x01}, n)...), msg)
+			}
+		})
+		evid.Add("shaped_signatures_verified", 1)
+	}
+}
+
 func hasSLHPrivate(info *tinkpb.KeysetInfo) bool {
 	for _, ki := range info.KeyInfo {
 		if shortType(ki.TypeUrl) == "SlhDsaPrivateKey" && ki.Status == tinkpb.KeyStatusType_ENABLED {
@@ -488,6 +535,7 @@ func (e *env) runFactory(f string, h *keyset.Handle, info *tinkpb.KeysetInfo, in
 				return result{oFactoryErr, errOf(err)}
 			}
 			e.guard("Verifier.Verify(garbage)", func() { v.Verify(in.aad, in.msg); v.Verify(nil, nil); v.Verify(in.msg, in.msg) })
+			e.verifyShaped(v, h, in.msg)
 			return result{oPublicOnly, ""}
 		}
 		var s tink.Signer
@@ -512,6 +560,7 @@ func (e *env) runFactory(f string, h *keyset.Handle, info *tinkpb.KeysetInfo, in
 		var cerr error
 		e.guard("Verifier.Verify", func() { cerr = v.Verify(sig, in.msg) })
 		e.guard("Verifier.Verify(garbage)", func() { v.Verify(in.aad, in.msg); v.Verify(sig[:len(sig)/2], in.msg); v.Verify(nil, nil) })
+		e.verifyShaped(v, pub, in.msg)
 		if cerr != nil {
 			if isSLHPrivatePrimary(info) {
 				return result{"slhdsa-excepted", errOf(cerr)}
